@@ -148,6 +148,9 @@ MUTANTS += [
  ('C13', 'blobstorage-foreign-abort-regress', BLOB, "        if current is None or current is transaction:\n            self._blob_tpc_abort()", "        self._blob_tpc_abort()"),
  ('C07', 'blob-dup-check-ignores-reach-ex', FSP, "                        rposs.extend(self.gc.reach_ex.get(h.oid, ()))\n", ""),
  ('C08', 'gc-garbage-roots-strict-regress', FSP, "            self.findReachableAtPacktime(refs, missing_ok=True)", "            self.findReachableAtPacktime(refs)"),
+ ('C07', 'gc-revived-garbage-strict-regress', FSP, "                        garbage_roots.append(dh.back)", "                        extra_roots.append(dh.back)"),
+ ('C07', 'gc-revived-revision-not-traversed-regress', FSP, "                        garbage_roots.append(dh.back)", "                        pass"),
+ ('C07', 'packcopier-data-find-first-record', FSP, "                data_hdr = h\n                data_pos = pos\n", "                data_hdr = h\n                data_pos = pos\n                break\n"),
  ('C09', 'time-travel-uses-index-regress', FS, "        r = None if time_travel else self._restore_index()", "        r = self._restore_index()"),
  ('C11', 'close-precheck-regress', 'Connection.py', "                if connection is not self and not connection._needs_to_join:\n                    raise ConnectionStateError(\n                        \"Cannot close a connection joined to a transaction\")", "                pass"),
  ('C13', 'tmpstore-f20-regress', CONN, "        targetname = self._getCleanFilename(oid, self.index[oid])", "        targetname = self._getCleanFilename(oid, 0)"),
